@@ -81,11 +81,13 @@ type RPC struct {
 	Wid     int     // write id carried by the payload (0 = none)
 	Aux     []int64 // kind specific (hosts, start/end ...)
 
-	State    int
-	Result   interface{} // reply of the (first) execution
-	Lose     bool        // deliver an RPC error instead of Result when the callee finishes
-	AutoSend bool        // deliver as soon as the callee finishes
-	Execs    int
+	State     int
+	Result    interface{} // reply of the (first) execution
+	Lose      bool        // deliver an RPC error instead of Result when the callee finishes
+	AutoSend  bool        // deliver as soon as the callee finishes
+	Execs     int
+	Delivered bool        // the caller got the callee's reply (not an injected RPC error)
+	Meta      interface{} // harness bookkeeping (e.g. what a lookup was guaranteed to see)
 
 	exec   func() interface{}
 	fail   func() interface{}
@@ -130,17 +132,18 @@ type Op struct {
 
 // Sched is the scheduler.
 type Sched struct {
-	mu       sync.Mutex
-	auto     bool // execute calls immediately in the caller's goroutine (setup / drain phases)
-	pending  []*RPC
-	progress int64
-	nextSeq  int
-	nextOp   int
-	order    int64
-	Ops      []*Op
-	Steps    int
-	Stacks   int
-	self     []byte // "goroutine N " prefix of the harness goroutine
+	mu        sync.Mutex
+	auto      bool // execute calls immediately in the caller's goroutine (setup / drain phases)
+	pending   []*RPC
+	progress  int64
+	nextSeq   int
+	nextOp    int
+	order     int64
+	Ops       []*Op
+	Steps     int
+	Stacks    int
+	completed []*RPC
+	self      []byte // "goroutine N " prefix of the harness goroutine
 }
 
 func NewSched() *Sched {
@@ -317,10 +320,19 @@ func (s *Sched) remove(r *RPC) {
 	s.mu.Unlock()
 }
 
-func (s *Sched) finish(r *RPC, v interface{}) {
+func (s *Sched) finish(r *RPC, v interface{}, delivered bool) {
 	r.State = StDone
+	r.Delivered = delivered
 	s.remove(r)
+	s.completed = append(s.completed, r)
 	r.resume <- v
+}
+
+// TakeCompleted returns (and forgets) the calls whose callers were resumed since the last call.
+func (s *Sched) TakeCompleted() []*RPC {
+	c := s.completed
+	s.completed = nil
+	return c
 }
 
 // Delivery modes.
@@ -339,7 +351,7 @@ func (s *Sched) Start(r *RPC, mode int) {
 	}
 	s.Steps++
 	if mode == ModeFail {
-		s.finish(r, r.fail())
+		s.finish(r, r.fail(), false)
 		s.Settle()
 		return
 	}
@@ -381,9 +393,9 @@ func (s *Sched) Flush() (done []*RPC) {
 			return
 		}
 		if r.Lose {
-			s.finish(r, r.fail())
+			s.finish(r, r.fail(), false)
 		} else {
-			s.finish(r, r.Result)
+			s.finish(r, r.Result, true)
 		}
 		done = append(done, r)
 		s.Settle()
@@ -397,9 +409,9 @@ func (s *Sched) Reply(r *RPC, lose bool) {
 	}
 	s.Steps++
 	if lose {
-		s.finish(r, r.fail())
+		s.finish(r, r.fail(), false)
 	} else {
-		s.finish(r, r.Result)
+		s.finish(r, r.Result, true)
 	}
 	s.Settle()
 	s.Flush()
